@@ -105,7 +105,10 @@ func (m *mutator) note(p, kind string) {
 	m.feat[p] = kind
 }
 
-func (m *mutator) exists(p string) bool { _, err := os.Lstat(filepath.Join(m.dir, p)); return err == nil }
+func (m *mutator) exists(p string) bool {
+	_, err := os.Lstat(filepath.Join(m.dir, p))
+	return err == nil
+}
 
 var ignoreSets = [][]string{
 	{"*.log", "!keep.log"},
